@@ -2974,26 +2974,35 @@ func (x *Exec) initBinds(s *State) {
 	}
 	for _, b := range x.c.Binds {
 		var typ types.Type
-		for _, blk := range x.fn.Blocks {
-			for _, instr := range blk.Instrs {
-				call, ok := instr.(*ssa.Call)
-				if !ok || typ != nil {
-					continue
-				}
-				cc := call.Common()
-				name := ""
-				if cc.IsInvoke() {
-					name = typeName(cc.Value.Type()) + "." + cc.Method.Name()
-				} else if callee := cc.StaticCallee(); callee != nil {
-					name = callee.String()
-				} else if _, isB := cc.Value.(*ssa.Builtin); !isB {
-					name = "dynamic:" + typeName(cc.Value.Type())
-				}
-				if name != "" && strings.Contains(name, b.Callee) {
-					typ = call.Type()
+		// the call may sit in the function itself or in a contract-less helper
+		// that is taken by its body
+		var look func(fn *ssa.Function, depth int)
+		look = func(fn *ssa.Function, depth int) {
+			for _, blk := range fn.Blocks {
+				for _, instr := range blk.Instrs {
+					call, ok := instr.(*ssa.Call)
+					if !ok || typ != nil {
+						continue
+					}
+					cc := call.Common()
+					name := ""
+					if cc.IsInvoke() {
+						name = typeName(cc.Value.Type()) + "." + cc.Method.Name()
+					} else if callee := cc.StaticCallee(); callee != nil {
+						name = callee.String()
+						if depth < 3 && isRepoFunc(callee) && x.P.contractFor(callee) == nil && !strings.Contains(name, b.Callee) && smallStraight(callee) && !hasBackEdge(callee) {
+							look(callee, depth+1)
+						}
+					} else if _, isB := cc.Value.(*ssa.Builtin); !isB {
+						name = "dynamic:" + typeName(cc.Value.Type())
+					}
+					if typ == nil && name != "" && strings.Contains(name, b.Callee) {
+						typ = call.Type()
+					}
 				}
 			}
 		}
+		look(x.fn, 0)
 		if typ == nil {
 			continue
 		}
